@@ -91,7 +91,26 @@ def run_scc_steps(case):
     return {"n": n, "edges": [list(e) for e in case["edges"]], "steps": steps, "input": case}
 
 
+def gen_siblings(rng):
+    """p -> x first, then p -> v; x -> w, w -> x (w reaches up only through x), x -> p; v reaches the component only through w.
+    One strongly connected class; whether a Tarjan variant keeps it together depends on the order p lists x and v in"""
+    names = list(range(4 + rng.randint(0, 3)))
+    rng.shuffle(names)
+    p, x, w, v = names[:4]
+    rest = names[4:]
+    edges = [[p, x], [p, v], [x, w], [x, p], [w, x], [v, w]]
+    if rng.random() < 0.3:
+        edges[0], edges[1] = edges[1], edges[0]
+    for r in rest:                                   # extra nodes hang off the class or feed into it, never give v another way up
+        edges.append(rng.choice([[w, r], [r, p], [x, r], [r, r]]))
+    order = [p] + rng.sample([x, w, v] + rest, len(rest) + 3)
+    n = len(names)
+    return {"n": n, "m": n, "edges": edges, "order": order, "labels": rng.choice(["int", "str", "tuple", "big"])}
+
+
 def gen(rng, nmax=8):
+    if nmax >= 8 and rng.random() < 0.08:
+        return gen_siblings(rng)
     n = rng.randint(1, nmax)
     k = rng.choice([0, 0, 0, 1, 2])
     m = n + k
